@@ -33,7 +33,7 @@ Print Assumptions C16_connect_wait_decides.
 (* tunnel mode is absorbing for data calls: TUNNEL is returned, no callback runs, no transaction is created,
    no parser state other than the chunk cursor and byte counters changes *)
 Theorem C16_tunnel_absorbing_req : forall cb g data len c,
-  c_in_status c = c_HTP_STREAM_TUNNEL -> (c_in_tx c <> None \/ c_in_state c = REQ_IDLE) -> (0 < len)%nat ->
+  c_in_status c = c_HTP_STREAM_TUNNEL -> (0 < len)%nat ->
   snd (connp_req_data cb g data len c) = c_HTP_STREAM_TUNNEL /\ same_but_cursor_in c (fst (connp_req_data cb g data len c)).
 Proof. exact tunnel_absorbing_req. Qed.
 Theorem C16_tunnel_absorbing_res : forall cb g data len c,
@@ -54,13 +54,52 @@ Example C16_example :
   map oc_ntx obs = [0; 1; 1; 1; 1; 1]%nat.
 Proof. vm_compute. repeat split. Qed.
 
-(* ---- the history-level statement is false of the code (listed finding http09-then-tunnel-error): junk after an Upgrade request is taken as an
-        HTTP/0.9-style request, which leaves in_tx NULL in state REQ_IGNORE_DATA_AFTER_HTTP_0_9; once the 101 answer has put both directions into
-        TUNNEL, htp_connp_req_data tests "no inbound transaction outside IDLE" (-> ERROR) before it tests for TUNNEL ---- *)
+(* ---- the former witness against the history-level statement (listed finding http09-then-tunnel-error, fixed in /repo: the entry guard of
+        htp_connp_req_data lets tunnel mode through): junk after an Upgrade request is taken as an HTTP/0.9-style request, which leaves in_tx NULL in
+        state REQ_IGNORE_DATA_AFTER_HTTP_0_9; once the 101 answer has put both directions into TUNNEL the next request data call used to return ERROR
+        ("no inbound transaction outside IDLE" was tested before TUNNEL); it now returns TUNNEL and the oracle accepts the history ---- *)
 Definition c16_w_ops : list cp_op := [OpOpen; OpReqData [71;69;84;32;47;117;112;32;72;84;84;80;47;49;46;49;13;10;72;111;115;116;58;32;97;13;10;85;112;103;114;97;100;101;58;32;119;101;98;115;111;99;107;101;116;13;10;67;111;110;110;101;99;116;105;111;110;58;32;85;112;103;114;97;100;101;13;10;13;10;65;22;1;65;10;10;128;10]%N; OpResData [72;84;84;80;47;49;46;49;32;49;48;49;32;88;13;10;13;10]%N; OpReqData [65]%N].
-Theorem C16_tunnel_full_refuted : ~ C16_tunnel_full.
-Proof. intros H. specialize (H (fun _ _ => CB_OK) (cp_make_cfg 1 (Z.to_nat 18000) 512 false false 0) c16_w_ops). vm_compute in H. discriminate. Qed.
-Print Assumptions C16_tunnel_full_refuted.
+Example C16_http09_then_tunnel_fixed :
+  chk_C16 (obs_run (fun _ _ => CB_OK) (cp_make_cfg 1 (Z.to_nat 18000) 512 false false 0) connp_new c16_w_ops) = true.
+Proof. vm_compute. reflexivity. Qed.
+Example C16_http09_then_tunnel_fixed_rc :
+  map oc_rc (obs_run (fun _ _ => CB_OK) (cp_make_cfg 1 (Z.to_nat 18000) 512 false false 0) connp_new c16_w_ops) =
+  [-1; c_HTP_STREAM_DATA; c_HTP_STREAM_TUNNEL; c_HTP_STREAM_TUNNEL].
+Proof. vm_compute. reflexivity. Qed.
+
+(* ---- the other listed finding (server-first-tunnel-data-parsed-as-response) is NOT a witness against C16_tunnel_full: the oracle only watches the
+        calls after one that was answered with BOTH directions in TUNNEL, and here the response direction never gets there. What the model does:
+        the CONNECT head alone, the 2xx answer, then the server speaks first: the banner is parsed as a new response, a second transaction is
+        fabricated from tunnel payload and callbacks run on it (4 events); no call returns TUNNEL, neither then nor for the client bytes that
+        follow (the fabricated transaction has moved the request side on), and chk_C16 accepts both histories.
+        C16_tunnel_full_refuted (which rested on the http09 witness) is therefore gone: no listed finding refutes the statement any more. It is still
+        not a theorem; C16_zero_length_chunk_in_tunnel below records the one rejected history known, a misuse of the API. ---- *)
+Definition c16_connect25 : bytes := [67;79;78;78;69;67;84;32;104;58;50;53;32;72;84;84;80;47;49;46;49;13;10;72;111;115;116;58;32;104;58;50;53;13;10;13;10]%N.
+Definition c16_banner : bytes := [50;50;48;32;114;101;97;100;121;13;10]%N.
+Definition c16_sf_ops : list cp_op := [OpOpen; OpReqData c16_connect25; OpResData c16_ok; OpResData c16_banner].
+Example C16_server_first_accepted_by_oracle :
+  let obs := obs_run (fun _ _ => CB_OK) (cp_make_cfg 1 (Z.to_nat 18000) 512 false false 0) connp_new c16_sf_ops in
+  chk_C16 obs = true /\
+  map oc_rc obs = [-1; c_HTP_STREAM_DATA; c_HTP_STREAM_DATA; c_HTP_STREAM_DATA] /\
+  map oc_out_status obs = [c_HTP_STREAM_OPEN; c_HTP_STREAM_OPEN; c_HTP_STREAM_DATA; c_HTP_STREAM_DATA] /\
+  map oc_ntx obs = [0; 1; 1; 2]%nat /\
+  map (fun o => length (oc_events o)) obs = [0; 5; 6; 4]%nat.
+Proof. vm_compute. repeat split. Qed.
+Example C16_server_first_then_client_accepted_by_oracle :
+  let obs := obs_run (fun _ _ => CB_OK) (cp_make_cfg 1 (Z.to_nat 18000) 512 false false 0) connp_new (c16_sf_ops ++ [OpReqData [69;72;76;79;10]%N]) in
+  chk_C16 obs = true /\
+  map oc_rc obs = [-1; c_HTP_STREAM_DATA; c_HTP_STREAM_DATA; c_HTP_STREAM_DATA; c_HTP_STREAM_DATA] /\
+  map oc_in_status obs = [c_HTP_STREAM_OPEN; c_HTP_STREAM_DATA; c_HTP_STREAM_DATA; c_HTP_STREAM_DATA; c_HTP_STREAM_DATA] /\
+  map oc_ntx obs = [0; 1; 1; 2; 2]%nat.
+Proof. vm_compute. repeat split. Qed.
+(* a zero-length chunk in an established tunnel ("Zero-length data chunks are not allowed": the call returns CLOSED, not TUNNEL) is rejected by the
+   oracle: the statement quantifies over ALL operation lists, this one is a misuse of the API and not a finding *)
+Example C16_zero_length_chunk_in_tunnel :
+  let obs := obs_run (fun _ _ => CB_OK) (cp_make_cfg 1 (Z.to_nat 18000) 512 false false 0) connp_new
+               [OpOpen; OpReqData c16_connect; OpResData c16_ok; OpReqData [22;3;1;0;10]%N; OpReqData []] in
+  chk_C16 obs = false /\
+  map oc_rc obs = [-1; c_HTP_STREAM_DATA; c_HTP_STREAM_DATA; c_HTP_STREAM_TUNNEL; c_HTP_STREAM_CLOSED].
+Proof. vm_compute. repeat split. Qed.
 
 (* ==== HISTORY-LEVEL THEOREMS (PTun*.v), callbacks answering OK ====
    (T1) TUNNEL ESTABLISHED. History h: open; a CONNECT request of the wire grammar in ANY chunking (the last chunk may carry the first client bytes); a 2xx answer
@@ -92,7 +131,8 @@ Proof. exact tn_tunnel_established. Qed.
 Print Assumptions C16_tunnel_established.
 (* (T2) 101 SWITCHING PROTOCOLS: any request of the grammar in any chunking, a 101 answer without Content-Length / Transfer-Encoding in any chunking, any tail:
    the response call that delivers the last byte of the 101 head returns TUNNEL with both directions in TUNNEL; every later call is absorbed; one transaction.
-   The op-order premise (no request byte between the request and the 101) excludes the listed finding http09-then-tunnel-error. *)
+   The op-order premise (no request byte between the request and the 101) excludes histories like the former listed finding http09-then-tunnel-error
+   (fixed in /repo, see C16_http09_then_tunnel_fixed above); the theorem is unchanged. *)
 Theorem C16_switching_protocols : forall cb g rq rsp cuts (qchunks spre : list bytes) (slast : bytes) (tail : list cp_op),
   wr_all_ok cb -> g_allow_space_uri g = false -> (g_max_tx g = 0 \/ 1 < g_max_tx g)%nat ->
   sg_req_ok g rq = true -> tn_rsp_ok g rsp cuts = true -> tu_101_ok rq rsp cuts = true ->
